@@ -57,6 +57,15 @@ Predicate.TRUE = Predicate(lambda *_: True)
 Predicate.FALSE = Predicate(lambda *_: False)
 
 
+def _holds(pred: Predicate, node: Union[ast.AST, int]) -> bool:
+    # a condition that does not apply to the node (it raises) is not satisfied by it: the same
+    # outcome at rewrite time, for every part, as at delivery (where the exception is swallowed)
+    try:
+        return pred(node)
+    except Exception:
+        return False
+
+
 class CompositePredicate(Predicate):
     def __init__(self, base_predicates: Sequence[Predicate], reducer=any) -> None:
         self.base_predicates = list(base_predicates)
@@ -74,7 +83,7 @@ class CompositePredicate(Predicate):
     ) -> bool:
         predicates = self.base_predicates if predicates is None else predicates
         assert len(predicates) > 0
-        return self.reducer(pred(node) for pred in predicates)
+        return self.reducer(_holds(pred, node) for pred in predicates)
 
     def dynamic_call(self, node: Union[ast.AST, int]) -> bool:
         # every part is evaluated: the rewriter only establishes that SOME handler of the event wants
